@@ -111,6 +111,10 @@ func helperReturns(fn *ssa.Function, idx int) []ssa.Value {
 				continue
 			}
 		}
+		// "nothing to return": `return nil, nil` (callers test the value before using it)
+		if ei >= 0 && ei != idx && ei < len(r.Results) && isNilConst(v) && isNilConst(LoadOrigin(r.Results[ei])) {
+			continue
+		}
 		// the comma-ok idiom: `return zero, false`
 		if last := len(r.Results) - 1; last != idx && last >= 1 && isBoolConst(LoadOrigin(r.Results[last]), false) {
 			if _, isC := v.(*ssa.Const); isC {
@@ -188,7 +192,8 @@ func derives(v ssa.Value, s FlowSpec, seen map[seenKey]bool, depth int, fr *Fram
 			return false, false
 		}
 		callee := Followable(call, fr)
-		if callee == nil {
+		if callee == nil || exportedFunc(callee) {
+			// exported functions are API with a meaning of their own: their result is an origin
 			return false, false
 		}
 		vals := helperReturns(callee, idx)
@@ -717,7 +722,7 @@ func Derives3In(v ssa.Value, fr *Frame, spec FlowSpec) Tri {
 				return false
 			}
 			if callee := y.Call.StaticCallee(); callee != nil && callee.Pkg != nil && callee.Pkg.Pkg != nil && strings.HasPrefix(callee.Pkg.Pkg.Path(), ModPath) {
-				if Followable(y, nil) == nil {
+				if !exportedFunc(callee) && Followable(y, nil) == nil {
 					opaque = true
 				}
 			} else if callee == nil {
